@@ -13,7 +13,6 @@
 use std::any::Any;
 use std::cell::RefCell;
 use std::collections::{BTreeMap, BTreeSet};
-use std::path::Path;
 use std::process::Command;
 
 use proptest::strategy::{BoxedStrategy, Strategy, ValueTree};
